@@ -640,6 +640,19 @@ def assignments(op, vals, build, rng, tier, pins, todo_sigs):
             chosen = []
         todo_sigs[('diag-done', build, op)] = True
     nmix = (3 if o.level == 'view' else 6) if tier == 'quick' else (5 if o.level == 'view' else 10)
+    if o.level == 'index':
+        # the type-level branches key on the CLASS of each argument (constant / clipped / fixed / bounded / dynamic):
+        # every pair of classes for the first two list arguments, the remaining arguments cycling
+        lpos = [j for j, ((an, vt), v) in enumerate(zip(o.args, vals)) if vt in ('L', 'I') and v is not None][:2]
+        if len(lpos) == 2:
+            cls = ['ct', 'cl', 'a', 'sv', 'v']
+            t = 0
+            for ka in cls:
+                for kb in cls:
+                    if ka in per[lpos[0]] and kb in per[lpos[1]]:
+                        k = [p[t % len(p)] for p in per]
+                        k[lpos[0]] = ka; k[lpos[1]] = kb
+                        chosen.append(tuple(k)); t += 1
     n_diag = len(chosen)
     if len(allk) > len(chosen):
         chosen += rng.sample(allk, min(nmix, len(allk)))
